@@ -159,6 +159,26 @@ pub fn main_rdfc(deep: bool) {
         let named: Vec<OQuad> = (0..k).map(|i| edge(10 + i, 20 + i, Some(b(30 + i)))).collect();
         n += check(&named, &format!("{} disjoint pairs, each in its own blank graph", k));
     }
+    // clusters of more than 10 blank nodes that all go through Hash N-Degree Quads (temporary identifiers b10,
+    // b11, ... sort differently as strings and as numbers): long cycles, two identical rdf:Lists
+    for k in [11usize, 12, 13] {
+        let cyc: Vec<OQuad> = (0..k).map(|i| edge(i, (i + 1) % k, None)).collect();
+        n += check(&cyc, &format!("cycle{}", k));
+    }
+    {
+        let first = iri("http://www.w3.org/1999/02/22-rdf-syntax-ns#first");
+        let rest = iri("http://www.w3.org/1999/02/22-rdf-syntax-ns#rest");
+        let nil = iri("http://www.w3.org/1999/02/22-rdf-syntax-ns#nil");
+        for cells in [6usize, 12] {
+            let mut d: Vec<OQuad> = vec![];
+            for l in 0..2usize { for c in 0..cells {
+                let me = b(100 * (l + 1) + c);
+                d.push(OQuad { s: me.clone(), p: first.clone(), o: OTerm::Lit(format!("{}", c)), g: None });
+                d.push(OQuad { s: me, p: rest.clone(), o: if c + 1 == cells { nil.clone() } else { b(100 * (l + 1) + c + 1) }, g: None });
+            }}
+            n += check(&d, &format!("two identical lists of {} cells", cells));
+        }
+    }
     // non-default limits: an explicit error is right exactly when the limit is exceeded (as measured by the oracle
     // run: deepest recursion vs depth_factor x number of blank nodes; longest permuted list vs permutation_limit)
     {
